@@ -43,7 +43,7 @@ func (t *hashTab) coq() string {
 	sort.Strings(ks)
 	var es []string
 	for _, k := range ks {
-		es = append(es, lib.Pair(lib.Hex([]byte(k)), lib.Hex(t.in[k])))
+		es = append(es, lib.Pair(lib.Hex([]byte(k)), hx(t.in[k])))
 	}
 	return lib.List(es)
 }
@@ -182,7 +182,7 @@ func cloneProof(p [][]byte) [][]byte {
 func hexList(p [][]byte) string {
 	var xs []string
 	for _, x := range p {
-		xs = append(xs, lib.Hex(x))
+		xs = append(xs, hx(x))
 	}
 	return lib.List(xs)
 }
